@@ -164,7 +164,9 @@ theorem manders_range (x y : List Rat) (t : Rat) (hx : ∀ v ∈ x, 0 ≤ v) (hs
 
 example : manders [0, 1, 0, 1] [1, 2, 3, 4] (some 0) (some 0) = (1, 3 / 5) := by decide +kernel
 
-/-! ## block shuffling -/
+/-! ## block shuffling, 2-D (`shuffleBlocks` of `PewModel/Colocal.lean`; the same theorems for arrays of any
+dimension are in the section "block shuffling in any dimension" below, and `nd_coincides_2d` says that this 2-D
+model is the n-D model on shapes `[n0, n1]`) -/
 
 /-- **Block shuffling is a permutation of whole blocks.**  For every `nidx` that is a permutation
 of the selected flat block indices (what `numpy.random.permutation` returns), the result is the
@@ -500,6 +502,20 @@ theorem same_pixels (yC yF : Bool) (y : Img Rat) (mask : Nat → Nat → Bool) (
     rw [masked_eq_filter_map, s0, s1]
     rfl
 
+/-- in terms of the numbers the routine computes: every rᵢ is a coefficient over as many pixels as r (the masked
+pixel lists `x[mask]` of round i and of r are the same list) -/
+theorem prob_steps_same_pixels (x y : Img Rat) (mask : Nat → Nat → Bool) (b : Nat) (part : Bool)
+    (sigmas : List (List Nat)) :
+    (probSteps x y mask b part sigmas).length = sigmas.length ∧
+    ∀ s ∈ probSteps x y mask b part sigmas, s.n = (masked x mask).length := by
+  obtain ⟨hl, hr, _, _⟩ := same_pixels true true y mask b part sigmas
+  refine ⟨by simp [probSteps, probStepsOf, hl], ?_⟩
+  intro s hs
+  simp only [probSteps, probStepsOf, List.mem_map] at hs
+  obtain ⟨rd, hrd, rfl⟩ := hs
+  rw [(hr rd hrd).1]
+  rfl
+
 /-- the loop without the mask copy (the code before fb1e9b9), 4×4 images, block 3: `r` is computed over 16 pixels,
 `r₁` over 9 - with the copy, over 16 -/
 example :
@@ -510,6 +526,15 @@ example :
         (fun rd => (masked y rd.mask).length)) = [16] ∧
     (masked y (probRun false true true false y (fun _ _ => true) 3 false [[0]]).maskR).length = 16 := by
   decide +kernel
+
+/-- and without `y.copy()` (`copyY = false`) the in-place shuffles would land in the caller's `y`: the copy statement
+is what the "images untouched" part of `same_pixels` rests on -/
+example :
+    let y : Img Rat := ⟨2, 4, fun i j => ((i * 4 + j : Nat) : Rat)⟩
+    (pixels 2 4).map (fun q => (probRun true false true false y (fun _ _ => true) 2 false [[1, 0]]).final.yMem.caller.get q.1 q.2)
+      = [2, 3, 0, 1, 6, 7, 4, 5] ∧
+    (pixels 2 4).map (fun q => (probRun true true true false y (fun _ _ => true) 2 false [[1, 0]]).final.yMem.caller.get q.1 q.2)
+      = [0, 1, 2, 3, 4, 5, 6, 7] := by decide +kernel
 
 /-- **No layout flag is needed in the loop** (`x`, `y`, `mask` may be Fortran-ordered or strided views):
 `shuffled = y.copy()` is C-contiguous (`ndarray.copy` has `order='C'`), so `np.ascontiguousarray` inside
@@ -654,6 +679,12 @@ example : ([3, 2, 1, 0] : List Nat).Perm
 example : (coords [2, 2, 4]).map (shuffleBlocksNd (⟨[2, 2, 4], fun c => (ravel [2, 2, 4] c : Rat)⟩ : NdImg Rat)
       (fun _ => true) [1, 2, 2] false false [3, 2, 1, 0]).get
     = [10, 11, 8, 9, 14, 15, 12, 13, 2, 3, 0, 1, 6, 7, 4, 5] := by decide +kernel
+
+/-- a 1-D array is the shape `[n]` (no embedding into 2-D): pad mode, 5 elements, block 2 - three blocks, the last
+one partly padding -/
+example : shuffleIdxNd (⟨[5], fun c => (c.getD 0 0 : Rat)⟩ : NdImg Rat) (fun _ => true) [2] true false = [0, 1, 2] ∧
+    (coords [5]).map (shuffleBlocksNd (⟨[5], fun c => (c.getD 0 0 : Rat)⟩ : NdImg Rat) (fun _ => true) [2] true false
+      [2, 1, 0]).get = [4, 4, 2, 3, 0] := by decide +kernel
 
 /-- n-D: pixels outside the shuffled blocks never move (any `nidx`, both modes) -/
 theorem outside_never_move_nd {α : Type} (x : NdImg α) (mask : List Nat → Bool) (block : List Nat)
